@@ -59,6 +59,8 @@ func genC05(seed uint64) *Plan {
 	pr.AddPathRXProb = 0.4
 	pr.W = map[string]int{"announce": 10, "withdraw": 4, "wait": 1, "peer_notify": 2, "reconnect": 2}
 	pr.ReconnectProb = 0.7
+	pr.IneligibleProb = 0.15 // an eligible announcement may be replaced by one that is stored but not eligible
+	pr.RoleProb = 0.2
 	g := newGen("C05", seed, pr)
 	g.connectAll()
 	g.workload()
